@@ -63,6 +63,7 @@ c.finish(
     ],
     partial=[
         "MEASURED, not proved: no theorem speaks about goroutines, allocation or seconds. The harness measures wall time (budget 3 s + 0.15 ms/byte, hang watchdog 10 s), TotalAlloc (budget 512 MiB + 16 KiB/byte) and runtime.NumGoroutine before/after every case and re-runs a suspect three times in fresh processes.",
+        "objstm_reader_leak_refuted: on the code BEFORE F55 getObjStm leaves the decoded reader open on its error paths (proved on the variant close_on_error = false); the code as it is satisfies objstm_reader_ownership / objstm_get_closes_reader. The tie of the ownership component is the goroutine accounting: the J cases are also run with the object stream behind /DCTDecode (shaped JPEG that decodes exactly to the index text), where an unclosed reader is a leaked producer goroutine",
         "objstm_get_reentry_refuted: a variant of Reader.get that fetches the dictionary entries of an object stream with canObjStm = true re-enters without bound (proved on the variant model, depflag = true); the code as it is satisfies objstm_get_depth_bounded. The model abstracts /Length, /N, /First, /Extends resolution into the same dependency list as /Filter and /DecodeParms",
         "scan_bytes_spin_refuted: on the code BEFORE the F16 repair ScanBytes spins for every fuel once the source error is latched and the buffer consumed (proved on the variant model scan_bytes_prefix); the code as it is now satisfies scan_bytes_total",
         "the theorems cover the termination skeletons (buffer state machine, /Prev loop, reference following, the three walkers, xref-stream entry count); the object syntax (C01), xref table parsing, filters (C08), font programs, JBIG2, DCT, content-stream interpretation are exercised by the mutant walk only",
